@@ -26,6 +26,24 @@ func c12Pool() []c12Val {
 		{"ob:mT", "{B: m{self.k == 1}, k: 1}"}, {"ob:mF", "{B: m{self.k == 1}, k: 2}"},
 	}
 	out := append([]c12Val{}, base...)
+	// typed descendants made with `new` from a prototype that may define its own B:
+	// the Go value is still a *PanInt / *PanStr / ..., the B found along its chain is the user's
+	ubs := []struct{ desc, src string }{{"-", ""}, {"vT", "B: true"}, {"vF", "B: false"}, {"v1", "B: 1"}, {"mT", "B: m{true}"}, {"mF", "B: m{false}"}, {"mN", "B: m{nil}"}}
+	typed := []struct{ proto, zero, nonzero, zdesc, ndesc string }{
+		{"Int", "0", "5", "i0", "i5"}, {"Float", "0.0", "2.5", "f0", "f2"}, {"Str", "\"\"", "\"ab\"", "s0", "s2"}, {"Arr", "[]", "[1]", "a0", "a1"},
+	}
+	for _, t := range typed {
+		for _, ub := range ubs {
+			for k, payload := range []string{t.zero, t.nonzero} {
+				pd := []string{t.zdesc, t.ndesc}[k]
+				d := "ob:" + ub.desc
+				if ub.desc == "-" {
+					d = pd
+				}
+				out = append(out, c12Val{"tn:" + d, fmt.Sprintf("%s.bear({%s}).new(%s)", t.proto, ub.src, payload)})
+			}
+		}
+	}
 	// descendants via bear (empty and non-empty source)
 	for _, b := range base {
 		if b.desc == "func" || b.desc == "iter" || b.desc == "range" || b.desc == "T" || b.desc == "F" {
